@@ -21,7 +21,11 @@ META = {
         "resampled sources. The render is executed on the vf.vt terminal model and read back as a "
         "cols x 2*lines array of half-cell colours, compared EXACTLY with vf.ref.pixels.text_pixels. "
         "Non-trivial = some cell line with >= 2 colour runs or an alpha transition inside a colour run; "
-        "distinct by (mode, alpha kind, run structure per line, workaround)."
+        "distinct by (mode, alpha kind, run structure per line, workaround). Optionally the image's first render "
+        "is interrupted (KeyboardInterrupt at a generated line of block.py/common.py outside clean-up code, same or "
+        "other alpha) before the judged one. Clause interrupted: for images up to 3x2 cells every source line the "
+        "first render passes through is an interruption point (fresh image per point); the next render must equal an "
+        "undisturbed twin's; non-trivial = >= 20 interruption points, distinct by (mode, alpha kinds, size)."
     ),
     "assumptions": [
         "a terminal ignores NUL characters (split_cells separators)",
@@ -185,7 +189,9 @@ def cases(draw):
     if mode == "P" and draw(st.integers(0, 3)) > 0:
         img["transparency"] = draw(st.integers(0, 3))
     return {
-        "abort": draw(st.one_of(st.none(), st.none(), st.floats(0.0, 1.0, allow_nan=False))),
+        "abort": draw(st.one_of(st.none(), st.floats(0.0, 0.999, allow_nan=False), st.floats(0.0, 0.499, allow_nan=False))),
+        # transparency setting of the interrupted render: the case's own, or another one
+        "abort_alpha": draw(st.sampled_from(["same", None, None, "#", 0.5])),
         "cols": cols, "lines": lines, "img": img, "alpha": alpha, "bg": bg, "kitty": kitty,
         "ident": draw(st.sampled_from(NON_KITTY)),
     }
@@ -286,38 +292,38 @@ def check_pixels(case, rec):
     spec, pil = build(case)
     _, pil_ref = build(case)
     image = I.BlockImage(pil)
+    interrupted = ""
     try:
         image.set_size(cols, lines)
         if tuple(image.rendered_size) != (cols, lines):
             raise Violation(f"rendered_size {image.rendered_size} != requested {(cols, lines)}")
+        # abort-then-reuse: the first render of this image (and of the caller's PIL image) is interrupted -- Ctrl-C at a
+        # generated line of the block renderer or of the shared image code, possibly under another transparency
+        # setting; the renders that follow are judged against the reference like any other
+        if case.get("abort") is not None and cols * lines <= 60:
+            from ..faults import interrupt_at
+
+            files = ("image/block.py", "image/common.py")
+            a_alpha = alpha if case.get("abort_alpha", "same") == "same" else case["abort_alpha"]
+            _, pil_dry = build(case)
+            dry_image = I.BlockImage(pil_dry)
+            dry_image.set_size(cols, lines)
+            try:
+                lf = interrupt_at(files, case["abort"], lambda: image._renderer(image._render_image, a_alpha),
+                                  dry_fn=lambda: dry_image._renderer(dry_image._render_image, a_alpha))
+            except Exception as e:
+                raise Violation(f"block render raised {type(e).__name__}: {e}", {"kind": "render_exception"})
+            finally:
+                dry_image.close()
+            if lf is not None and lf.fired:
+                rec.label("abort_then_reuse")
+                interrupted = f" after a render with alpha={a_alpha!r} was interrupted at {lf.where}"
         try:
             out = image._renderer(image._render_image, alpha)
             out2 = image._renderer(image._render_image, alpha)
             outs = image._renderer(image._render_image, alpha, split_cells=True)
         except Exception as e:
             raise Violation(f"block render raised {type(e).__name__}: {e}", {"kind": "render_exception"})
-        # abort-then-reuse: a render of this very class is interrupted (Ctrl-C between two lines of the block renderer),
-        # afterwards the same render must come out exactly as before
-        if case.get("abort") is not None and cols * lines <= 60:
-            from ..faults import LineFault
-
-            with LineFault(("image/block.py",)) as dry:
-                image._renderer(image._render_image, alpha)
-            if dry.lines > 3:
-                k = 2 + int(case["abort"] * (dry.lines - 3))
-                lf = LineFault(("image/block.py",), k, KeyboardInterrupt)
-                try:
-                    with lf:
-                        image._renderer(image._render_image, alpha)
-                except KeyboardInterrupt:
-                    pass
-                if lf.fired:
-                    again = image._renderer(image._render_image, alpha)
-                    if again != out:
-                        raise Violation(f"after a render of the same image was interrupted (KeyboardInterrupt at line event {k} of "
-                                        f"{dry.lines} in the block renderer) the next render differs from the one before "
-                                        f"({again.count(chr(10)) + 1} lines vs {out.count(chr(10)) + 1})", {"clause": "abort_then_reuse"})
-                    rec.label("abort_then_reuse")
         # the public path: the same transparency setting written as a format specifier ("1.1" = padding that
         # is never larger than the render, i.e. none) must give the very same render
         aspec = alpha_spec(alpha)
@@ -457,7 +463,7 @@ def check_pixels(case, rec):
                     f"{'upper' if half == 0 else 'lower'} half of cell {(x, y)} shows {have}, expected {want} "
                     f"(mode {mode}, alpha {alpha!r}, terminal bg {bg}, kitty workaround {workaround}, "
                     f"{'exact-size' if exact else 'resampled from %dx%d' % (spec['w'], spec['h'])}"
-                    + (f", source pixel {src}" if src is not None else "") + ")",
+                    + (f", source pixel {src}" if src is not None else "") + ")" + interrupted,
                     {**sig, "clause": "pixels", "half": "upper" if half == 0 else "lower",
                      "want_transparent": want is None, "have_transparent": have is None},
                 )
@@ -468,6 +474,82 @@ def check_pixels(case, rec):
         if len(flat) != 1:
             raise Violation(f"uniform {mode} image {spec['w']}x{spec['h']} rendered at {cols}x{lines} cells "
                             f"is not uniform: {sorted(map(str, flat))[:4]}", {**sig, "clause": "uniform"})
+
+
+# ------------------------------------------------------------------------ every interruption point of a first render
+
+@st.composite
+def interrupt_cases(draw):
+    c = draw(cases())
+    c["cols"], c["lines"] = draw(st.integers(1, 3)), draw(st.integers(1, 2))
+    mode = draw(st.sampled_from(["P", "P", "PA", "RGBA", "LA", "RGB", "L"]))
+    pal = c["img"]["palette"]
+    w, h = (c["cols"], 2 * c["lines"]) if draw(st.booleans()) else (draw(st.integers(1, 4)), draw(st.integers(1, 4)))
+    c["img"] = {"mode": mode, "w": w, "h": h, "palette": pal, "idx": [draw(st.integers(0, len(pal) - 1)) for _ in range(w * h)]}
+    if mode == "P" and draw(st.integers(0, 3)) > 0:
+        c["img"]["transparency"] = draw(st.integers(0, min(3, len(pal) - 1)))
+    c["abort_alpha"] = draw(st.sampled_from(["same", None, "#", 0.5, "#102030"]))
+    return c
+
+
+def check_interrupt(case, rec):
+    """The first render of a fresh image over a fresh PIL image is interrupted at *every* source line of the block
+    renderer / shared image code it passes through (one fresh pair per line), under the case's or another transparency
+    setting; the next render must equal what an undisturbed twin renders (which clause `pixels` judges)."""
+    from ..faults import LineFault
+
+    env.reset()
+    cols, lines, alpha, bg = case["cols"], case["lines"], case["alpha"], case["bg"]
+    name, version = ("kitty", "0.26.5") if case["kitty"] else case["ident"]
+    env.apply(cols=cols + 2, rows=lines + 2, name=name, version=version, bg=bg)
+    files = ("image/block.py", "image/common.py")
+    a_alpha = alpha if case["abort_alpha"] == "same" else case["abort_alpha"]
+
+    def fresh():
+        _, pil = build(case)
+        im = I.BlockImage(pil)
+        im.set_size(cols, lines)
+        return im
+
+    twin = fresh()
+    try:
+        ref = twin._renderer(twin._render_image, alpha)
+        with LineFault(files) as dry:
+            twin._renderer(twin._render_image, a_alpha)
+    except Exception as e:
+        raise Violation(f"block render raised {type(e).__name__}: {e}", {"kind": "render_exception"})
+    finally:
+        twin.close()
+    fired = 0
+    for k in range(1, dry.distinct_lines + 1):
+        im = fresh()
+        lf = LineFault(files, k, KeyboardInterrupt, distinct=True)
+        try:
+            try:
+                with lf:
+                    im._renderer(im._render_image, a_alpha)
+            except KeyboardInterrupt:
+                pass
+            if not lf.fired:
+                continue
+            fired += 1
+            try:
+                again = im._renderer(im._render_image, alpha)
+            except Exception as e:
+                raise Violation(f"the render after one interrupted at {lf.where} raised {type(e).__name__}: {e}",
+                                {"clause": "abort_then_reuse", "kind": "exception"})
+            if again != ref:
+                raise Violation(f"a {case['img']['mode']} image's first render (alpha={a_alpha!r}) was interrupted by Ctrl-C at {lf.where}; "
+                                f"its next render with alpha={alpha!r} is {again!r}, an undisturbed twin renders {ref!r}",
+                                {"clause": "abort_then_reuse", "other_alpha": a_alpha != alpha})
+            if tuple(im.size) != (cols, lines):
+                raise Violation(f"an interrupted render changed the image size to {im.size}", {"clause": "abort_then_reuse", "kind": "size"})
+        finally:
+            im.close()
+    rec.count("interruption_points", fired)
+    rec.label(f"mode:{case['img']['mode']}", "other_alpha" if a_alpha != alpha else "same_alpha")
+    if fired >= 20:
+        rec.nontriv([case["img"]["mode"], akind(alpha), akind(a_alpha), "transparency" in case["img"], cols, lines])
 
 
 CLAUSES = [
@@ -485,4 +567,6 @@ CLAUSES = [
                 "bg_unknown": 0.1, "mode:RGBA": 0.1, "mode:LA": 0.05, "mode:PA": 0.05, "mode:P": 0.05,
                 "mode:1": 0.02, "mode:L": 0.02, "mode:RGB": 0.02, "mode:CMYK": 0.02, "mode:HSV": 0.02},
     ),
+    Clause("interrupted", check_interrupt, interrupt_cases, budget={"quick": 250, "thorough": 4000},
+           floors={"other_alpha": 0.3, "mode:P": 0.15}),
 ]
